@@ -158,14 +158,16 @@ CHECKS = {
          "required flags/counted/repeated flags/arguments x {required, optional, many, some, fallback, last}, positional suffix, "
          "subcommand trees with aliases), `compile` (the combinator term) and `denote` (one left-to-right attribution scan giving "
          "every token a role, then arity and value checks; Unspecified exactly for the property's carve-outs and help requests). "
-         "PROVED (coq/Props/C01.v): C01_sentences_accepted_flat -- for every flat level (no subcommands) satisfying the decidable "
-         "condition flat_ok, denote = Accept v implies run_inner = Ok v, for every argv; by refinement in two layers: AbsSim.v (the "
+         "PROVED (coq/Props/C01.v): C01_sentences_accepted_flat and C01_sentences_accepted_chain -- for every flat level and every "
+         "chain of nested subcommands (decidable conditions flat_ok / chain_ok), denote = Accept v implies run_inner = Ok v, for "
+         "every argv; C01_flat_total -- every vector yields a value, a document or an error, never a panic outcome or fuel "
+         "exhaustion; by refinement in layers: AbsSim.v (the "
          "evaluator of the fragment flags/arguments/positionals/construct!/optional/many/some/count/last/fallback depends on the "
          "ledger only through its live tokens: simulation with an interpreter over token lists, mutual induction over the parser) "
          "and ConvRefine.v (that interpreter on the compiled level computes what the scan attributes: each item pops exactly its "
-         "own occurrences in order, the positional suffix takes the remaining words, nothing is left). Also proved: a key no item "
-         "of a whole subcommand tree owns is never swallowed (corollary of C05). NOT proved: Accept for subcommand trees; the rest "
-         "of Reject -> stderr. Those are decided per run by conformance of the implementation against `denote` (4000 vectors quick: "
+         "own occurrences in order, the positional suffix takes the remaining words, nothing is left), ConvChain.v (command step: "
+         "scope narrowing, deeper levels' tokens are inert). Also proved: a key no item of a whole subcommand tree owns is never "
+         "swallowed (corollary of C05). NOT proved: levels with a choice of several subcommands; the rest of Reject -> stderr. Those are decided per run by conformance of the implementation against `denote` (4000 vectors quick: "
          "sentences in every spelling/order, near-miss and mutated non-sentences, salted vectors; flat_ok is evaluated on every "
          "generated level so the evidence says how many cases the theorem covers) and of the evaluator model on Coq's `compile`.",
          "4/C01", "Rocq proof by refinement (token-list interpreter simulation + scan/attribution equivalence) for flat levels + conformance differential implementation vs denote"),
